@@ -58,11 +58,14 @@ def main():
         sh(['git', '-C', '/repo', 'worktree', 'remove', '--force', wt])
     # run the checks against /repo with the patch applied (one evaluation at a time: /repo is shared)
     import fcntl
-    lock = open('/tmp/verif_repo_apply.lock', 'w')
+    # the tree the checks run against: /repo itself, or a private copy named by VERIF_REPO (background regression runs)
+    target = os.environ.get('VERIF_REPO', '/repo')
+    lock = open('/tmp/verif_repo_apply.%s.lock' % target.strip('/').replace('/', '_'), 'w')
     fcntl.flock(lock, fcntl.LOCK_EX)
-    rc, o = sh(['git', '-C', '/repo', 'status', '--porcelain'])
-    assert o.strip() == '', '/repo has uncommitted changes: ' + o
-    rc, o = sh(['git', '-C', '/repo', 'apply', patch])
+    if target == '/repo':
+        rc, o = sh(['git', '-C', '/repo', 'status', '--porcelain'])
+        assert o.strip() == '', '/repo has uncommitted changes: ' + o
+    rc, o = sh(['git', 'apply', patch], cwd=target)
     assert rc == 0, o
     res = {}
     try:
@@ -83,7 +86,10 @@ def main():
                     info['tail'] = o[-400:]
                 res[f'{c}@{s}'] = info
     finally:
-        sh(['git', '-C', '/repo', 'checkout', '--', '.'])
+        if target == '/repo':
+            sh(['git', '-C', '/repo', 'checkout', '--', '.'])
+        else:
+            sh(['git', 'apply', '-R', patch], cwd=target)
     out['checks'] = res
     out['detected_by'] = sorted({k.split('@')[0] for k, v in res.items() if v['rc'] == 1})
     print(json.dumps(out, indent=1))
